@@ -165,10 +165,14 @@ let diag_json (d : diag) : json =
       | KExpect MEmpty -> "") in
   Arr [ Str msg; jn d.d_lo; jn d.d_hi ]
 
+let rec sx_json (s : sx) : json =
+  match s with Sx (k, t, kids) -> Arr [ jn k; jstr t; Arr (List.map sx_json kids) ]
+
 let cmd_parse (req : json) : json =
   match parse (text_of (field req "text")) with
   | Parsed (toks, ds) -> Obj [ ("r", Str "ok"); ("tokens", Arr (List.map token toks)); ("diags", Arr (List.map diag_json ds));
-                              ("render", jstr (render toks)); ("show", jstr (show toks)); ("eof_rest", jstr (eof_rest toks)) ]
+                              ("render", jstr (render toks)); ("show", jstr (show toks)); ("eof_rest", jstr (eof_rest toks));
+                              ("skeleton", Arr (List.map sx_json (skeleton toks))) ]
   | ParsePanic -> Obj [ ("r", Str "panic") ]
   | ParseOutOfFuel -> Obj [ ("r", Str "fuel") ]
 
